@@ -259,7 +259,8 @@ def main():
   agg["violations"] = len(confirmed)
   agg["coverage"]["known_finding_cases"] = sum(n for _, n in known_hits.values())
   agg["wall_s"] = round(time.time() - t0, 2)
-  if not args.no_evidence and not args.only:
+  if not args.no_evidence and not args.only and \
+      not os.environ.get("VERIF_REPO"):
     evidence_mod.write(prop, agg)
   c = agg["coverage"]
   print("[%s] states=%d transitions=%d evaluations=%d distinct_nontrivial=%d "
